@@ -43,6 +43,22 @@ TRUSTED_BASE = [
 ]
 
 
+_RELEASES = [0]
+
+
+def release_jax(every: int = 8):
+    """Forget compiled executables now and then: every jitted function keeps memory mappings, and a thorough run that
+    compiles thousands of configurations exhausts vm.max_map_count (LLVM: 'Unable to allocate section memory')."""
+    _RELEASES[0] += 1
+    if _RELEASES[0] % every == 0:
+        import gc
+
+        import jax
+
+        jax.clear_caches()
+        gc.collect()
+
+
 class HarnessError(Exception):
     """Problem of the machinery (never a violation). Exit code 2."""
 
